@@ -3,10 +3,11 @@ C04 sub-driver: nested lattice values.
 
 Type descriptor (prefix code, no spaces):
   x Max<u64> | n Min<u64> | u () | c Conflict<u64> | s SetUnion (hash-like receiver) |
-  v SetUnion (Vec receiver) | m<T> MapUnion | b<T> WithBot | t<T> WithTop | p<T><U> Pair | l<T> VecUnion
+  v SetUnion (Vec receiver) | m<T> MapUnion | b<T> WithBot | t<T> WithTop | p<T><U> Pair | l<T> VecUnion |
+  d<T> DomPair<Max<u64>,T>
 Value syntax (directed by the descriptor, no spaces):
   number | u | ! (conflict) | {1,2} | {1:<v>,2:<v>} | _ (WithBot none) | ^ (WithTop none) | ?<v> (some) |
-  (<v>;<v>) | [<v>,<v>]
+  (<v>;<v>) | [<v>,<v>] | <key|<v>> (DomPair)
 Ops:
   lat merge <desc> <repr> <a> <b>   -> <flag> <value>
   lat from  <desc> <repr> <b>       -> <value>
@@ -34,6 +35,7 @@ def parseDesc : Nat → List Char → Option (Shape × RT × List Char)
     | 'b' :: r => (parseDesc fuel r).map fun (s, t, r) => (.withBot s, .mk false [t], r)
     | 't' :: r => (parseDesc fuel r).map fun (s, t, r) => (.withTop s, .mk false [t], r)
     | 'l' :: r => (parseDesc fuel r).map fun (s, t, r) => (.vec s, .mk false [t], r)
+    | 'd' :: r => (parseDesc fuel r).map fun (s, t, r) => (.domPair s, .mk false [t], r)
     | 'p' :: r =>
       match parseDesc fuel r with
       | some (s1, t1, r1) =>
@@ -117,6 +119,15 @@ def parseVal : (s : Shape) → List Char → Option (Val s × List Char)
   | .vec s, cs => match cs with
     | '[' :: r => parseSeq (parseVal s) ',' ']' (r.length + 1) r
     | _ => none
+  | .domPair s, cs => match cs with
+    | '<' :: r =>
+      match parseNat r with
+      | some (k, '|' :: r1) =>
+        match parseVal s r1 with
+        | some (v, '>' :: r2) => some ((k, v), r2)
+        | _ => none
+      | _ => none
+    | _ => none
 
 def valOf (s : Shape) (str : String) : Option (Val s) :=
   match parseVal s str.toList with
@@ -138,6 +149,7 @@ def showVal : (s : Shape) → Val s → String
   | .withTop s, v => match (v : Option (Val s)) with | none => "^" | some x => "?" ++ showVal s x
   | .pair s t, v => "(" ++ showVal s (v : Val s × Val t).1 ++ ";" ++ showVal t (v : Val s × Val t).2 ++ ")"
   | .vec s, v => "[" ++ ",".intercalate ((v : List (Val s)).map (showVal s)) ++ "]"
+  | .domPair s, v => "<" ++ toString (v : Nat × Val s).1 ++ "|" ++ showVal s (v : Nat × Val s).2 ++ ">"
 
 def nodupNat : List Nat → Bool
   | [] => true
@@ -152,6 +164,7 @@ def canon : (s : Shape) → RT → Val s → Bool
   | .withTop s, r, v => match (v : Option (Val s)) with | none => true | some x => canon s (r.kid 0) x
   | .pair s t, r, v => canon s (r.kid 0) (v : Val s × Val t).1 && canon t (r.kid 1) (v : Val s × Val t).2
   | .vec s, r, v => (v : List (Val s)).all (canon s (r.kid 0))
+  | .domPair s, r, v => canon s (r.kid 0) (v : Nat × Val s).2
   | _, _, _ => true
 
 def showBool (b : Bool) : String := if b then "true" else "false"
